@@ -32,14 +32,16 @@ def gwXmax (F : Fn α) (thFC : α) : α :=
     let pF := 2 + 0.3 * (thFC - 0.1) / 0.2
     (F.exp (pF * F.log 10)) / 100
 
-/-- adjusted field capacity of one compartment that is less than `xmax` above the table. -/
-def gwFcAdj (zGW xmax : α) (c : Comp α) : α :=
+/-- adjusted field capacity of one compartment that is less than `xmax` above the table.
+`dFC = (dV / (Xmax * Xmax)) * ((zMid - (zGW - Xmax)) ** 2)`: the divisor is a real product in the
+Python, the second factor is `** 2` on a numpy float64 scalar, i.e. C `pow(·, 2.0)` → `F.pow · 2`. -/
+def gwFcAdj (F : Fn α) (zGW xmax : α) (c : Comp α) : α :=
   if c.thS ≤ c.thFC then c.thFC
   else if zGW ≤ c.zMid then c.thS
   else
     let dV := c.thS - c.thFC
     let t := c.zMid - (zGW - xmax)
-    let dFC := (dV / (xmax * xmax)) * (t * t)
+    let dFC := (dV / (xmax * xmax)) * (F.pow t 2)
     c.thFC + dFC
 
 /-- reset `fcAdj` to `thFC` -/
@@ -54,7 +56,7 @@ def gwtLoop (F : Fn α) (zGW : α) : List (Cell α) → List (Cell α)
       -- `for ii in range(compi + 1): thfcAdj[ii] = th_fc[ii]; compi = -1`
       (x :: xs).map Cell.resetFC
     else
-      { x with fcAdj := gwFcAdj zGW xmax x.c } :: gwtLoop F zGW xs
+      { x with fcAdj := gwFcAdj F zGW xmax x.c } :: gwtLoop F zGW xs
 
 /-- `len(zMid[zMid >= zGW]) != 0` -/
 def anyMidGE (zGW : α) : List (Cell α) → Bool
